@@ -370,11 +370,11 @@ theorem invB_rGo {s s' : St} {k : Nat} (hA : InvA s) (h : InvB s) (hs : stepRGo 
     · rename_i hrun
       cases hs
       have hon : onJob s k := hA.alive_lis k j0 hk (Or.inr hrun)
-      have hstate : (runGo j0 s.failSend).state = j0.state := by
+      have hstate : (runGo j0 s.failNodes).state = j0.state := by
         unfold runGo; split
         · rfl
         · split <;> rfl
-      have hrun' : (runGo j0 s.failSend).run = .finished := by
+      have hrun' : (runGo j0 s.failNodes).run = .finished := by
         unfold runGo; split
         · rfl
         · split <;> rfl
